@@ -1,13 +1,19 @@
 """token coding shared with extracted/modelrun.ml and harness/src/codec.rs"""
 
 
+class Raw(str):
+    """a token passed through unencoded (an {expr} placeholder)"""
+
+
 def enc(s):
+    if isinstance(s, Raw):
+        return str(s)
     if s == "":
         return "~"
     out = []
     for b in s.encode("utf-8"):
         c = chr(b)
-        if (b < 128 and c.isalnum()) or c in "_.:/*":
+        if (b < 128 and c.isalnum()) or c in "_./*":
             out.append(c)
         else:
             out.append("%%%02X" % b)
